@@ -153,7 +153,24 @@ def families(tier: str):
     return fams
 
 
+def drivable():
+    """can the current writer / I/O loop be stepped by this harness at all?  One message, one schedule, within a minute --
+    a writer that waits on a hand-off the harness does not stub (not the queue it replaces) would block every single run"""
+    try:
+        with linesched.deadline(60):
+            actors = make_actors(lambda: [[wpath.make_message(0)]], ["all"])
+            f, _line, real = finish(actors)
+        return None if (f is None and "sent=" in real and real != "sent= crashed=0") else f"a single queued message is not written: {f or real}"
+    except BaseException as e:  # noqa
+        return f"{type(e).__name__}: {e}"
+
+
 def run(res: Result, tier: str, seed: int):
+    why = drivable()
+    if why is not None:
+        # (reported as a broken correspondence: the program the proofs are about is not the one that runs)
+        return [], [{"line": "WPATH (one message, script [all])", "real": "the write path cannot be driven: " + why[:300],
+                     "model": "message written"}]
     rng = random.Random(seed * 1000003 + 15)
     res.rule = ("2..6 messages (one of them unencodable in some families) queued from 1..3 threads x send() scripts {partial "
                 "writes of 1..n bytes, EAGAIN, EINTR, ENOBUFS, a hard error} x every interleaving of queueing threads, writer "
@@ -228,6 +245,8 @@ def signature(f: dict):
 
 
 def search(res: Result, seed: int, broken) -> list:
+    if drivable() is not None:
+        return []
     r2 = Result(PROP, "thorough", seed)
     fails, _ = run(r2, "search", seed + 1)
     if not fails:
